@@ -67,14 +67,28 @@ elif kind == "status-on-stderr":
     out.write(b"% Refutation not found\n"); sys.stderr.write("% SZS status Theorem for problem\n"); sys.stderr.flush()
 elif kind == "late-countersat":
     status("CounterSatisfiable")
+elif kind == "huge-theorem":
+    # more than a pipe buffer on both streams, the status line in the middle
+    out.write(b"% proof search log line\n" * 6000); status("Theorem"); out.write(b"% more log\n" * 6000)
+    sys.stderr.write("% warning line\n" * 8000); sys.stderr.flush()
+elif kind == "huge-gaveup":
+    sys.stderr.write("% warning line\n" * 8000); sys.stderr.flush()
+    out.write(b"% proof search log line\n" * 9000); status("GaveUp")
+elif kind == "unknown-then-theorem":
+    status("Satisfiable"); status("Theorem")
+elif kind == "lowercase-theorem":
+    out.write(b"% SZS status theorem for problem\n")
+elif kind == "theoremx":
+    out.write(b"% SZS status TheoremX for problem\n")
 out.flush()
 sys.exit(rc)
 '''
 
 # outcome kind -> does the run count as "printed SZS status Theorem" (first status line)
-PROVEN = {"Theorem": True, "theorem-then-nonzero": True}
+PROVEN = {"Theorem": True, "theorem-then-nonzero": True, "huge-theorem": True}
 KINDS = ["Theorem", "CounterSatisfiable", "ContradictoryAxioms", "Timeout", "MemoryOut", "GaveUp", "Error", "unknown-word",
-         "no-status", "non-utf8", "theorem-then-nonzero", "second-line-theorem", "crash", "status-on-stderr"]
+         "no-status", "non-utf8", "theorem-then-nonzero", "second-line-theorem", "crash", "status-on-stderr",
+         "huge-theorem", "huge-gaveup", "unknown-then-theorem", "lowercase-theorem", "theoremx"]
 
 PROGRAM_PAIRS = [
     ("p(X) :- q(X).\nq(1..3).\nr :- not s.\n", "p(X) :- q(X), X = X.\nq(1). q(2). q(3).\nr :- not s, not not r.\n"),
@@ -85,6 +99,9 @@ PROGRAM_PAIRS = [
     ("", "p.\n"),
     ("", ""),
     ("p :- q.\n", "p :- q.\nq :- p, q.\nr(X) :- p, X = 1..2.\n"),
+    # a program against a verbatim copy: the forward and the backward problems consist of the same formulas
+    ("p :- q.\nr(X) :- p, s(X).\n", "p :- q.\nr(X) :- p, s(X).\n"),
+    ("{p}.\n", "{p}.\n"),
 ]
 
 
@@ -92,7 +109,7 @@ def prover_exploration(runs, seed):
     """Runs `anthem verify` with a stand-in vampire answering per plan. Returns (stats, failures)."""
     rng = random.Random(seed)
     failures, samples = [], []
-    n_ok = 0
+    n_ok = hung = 0
     # a --save-problems directory that is re-used by several runs (a larger task first): the files of a run must be
     # exactly what the prover received in that run, whatever the directory held before
     shared_save = Path(tempfile.mkdtemp(prefix="c10_save_", dir=str(VERIF / "work")))
@@ -114,8 +131,16 @@ def prover_exploration(runs, seed):
             left, right = (PROGRAM_PAIRS[0] if k % 5 == 1 else PROGRAM_PAIRS[2]) if reuse else PROGRAM_PAIRS[rng.randrange(len(PROGRAM_PAIRS))]
             if matrix:
                 left, right = PROGRAM_PAIRS[0]
+            # every ninth run: an external-equivalence task, a program against a verbatim copy without private predicates -
+            # its forward and backward problems consist of the same formulas under different names, and each of them must
+            # still reach the prover
+            ext = (k % 9 == 5) and not reuse
+            if ext:
+                left = right = rng.choice(["p(X) :- q(X).\nr :- p(1).\n", "p(X) :- q(X), not q(X+1).\n", "{p(X)} :- q(X).\nr :- p(X), X > 2.\n"])
             (work / "left.lp").write_text(left)
             (work / "right.lp").write_text(right)
+            if ext:
+                (work / "guide.ug").write_text("input: q/1.\noutput: p/1.\noutput: r/0.\n")
             fdir = work / "fake"
             fdir.mkdir()
             # plan: mostly all-Theorem or exactly one deviating outcome, sometimes fully random
@@ -153,15 +178,23 @@ def prover_exploration(runs, seed):
                 instances = 1 if k < -len(KINDS) else 3
             # every sixth run prints the timings too (the verdict does not depend on them)
             timed = (k % 6 == 4)
-            cmd = [str(ANTHEM), "verify", "--equivalence", "strong", "--decomposition", decomposition, "--direction", direction] + ([] if timed else ["--no-timing"]) + [
-                   "-n", str(instances), "--save-problems", str(save)] + (["-t", "1"] if late else []) + [str(work / "left.lp"), str(work / "right.lp")]
-            p = subprocess.run(cmd, stdout=subprocess.PIPE, stderr=subprocess.PIPE, env=env, timeout=300)
+            cmd = [str(ANTHEM), "verify", "--equivalence", "external" if ext else "strong", "--decomposition", decomposition, "--direction", direction] + ([] if timed else ["--no-timing"]) + [
+                   "-n", str(instances), "--save-problems", str(save)] + (["-t", "1"] if late else []) + [str(work / "left.lp"), str(work / "right.lp")] + ([str(work / "guide.ug")] if ext else [])
+            try:
+                p = subprocess.run(cmd, stdout=subprocess.PIPE, stderr=subprocess.PIPE, env=env, timeout=90)
+            except subprocess.TimeoutExpired:
+                failures.append({"run": k, "instances": instances, "decomposition": decomposition, "direction": direction, "programs": [left, right],
+                                 "plan": plan, "what": "verify did not finish within 90 s (every stand-in answer arrives within 3 s)"})
+                hung += 1
+                if hung >= 3:
+                    break
+                continue
             out = p.stdout.decode("utf-8", "replace")
             # the files written by this run (a re-used directory may hold older ones)
             saved = sorted(f for f in save.glob("*.p") if before.get(f.name) != f.stat().st_mtime_ns)
             nprob = len(saved)
             stdins = sorted(fdir.glob("stdin_*"))
-            case = {"run": k, "instances": instances, "decomposition": decomposition, "direction": direction, "programs": [left, right],
+            case = {"run": k, "instances": instances, "decomposition": decomposition, "direction": direction, "programs": [left, right], "external_task": ext,
                     "reused_save_directory": reuse, "plan": plan[:nprob], "missing_executable": missing, "time_limit_1s_with_late_answer": late}
             if p.returncode != 0 and "panicked at" in p.stderr.decode("utf-8", "replace"):
                 failures.append(dict(case, what="verify panicked", stderr=p.stderr.decode("utf-8", "replace")[-600:]))
